@@ -49,6 +49,8 @@ type File struct {
 
 	// Yield, when set, is called at the start of every call (scheduler hook).
 	Yield func()
+	// Who, when set, labels each event (overrides Tag): which worker / call made it.
+	Who func() string
 }
 
 // New returns an empty file.
@@ -66,6 +68,13 @@ func (f *File) Disarm() {
 	f.mu.Lock()
 	defer f.mu.Unlock()
 	f.FailAt = 0
+}
+
+func (f *File) tag() string {
+	if f.Who != nil {
+		return f.Who()
+	}
+	return f.Tag
 }
 
 func (f *File) hit() bool {
@@ -91,7 +100,7 @@ func (f *File) ReadAt(p []byte, off int64) (int, error) {
 	}
 	f.mu.Lock()
 	defer f.mu.Unlock()
-	ev := Event{Kind: Read, Off: off, Len: len(p), Tag: f.Tag}
+	ev := Event{Kind: Read, Off: off, Len: len(p), Tag: f.tag()}
 	if f.hit() {
 		ev.Failed = true
 		f.Log = append(f.Log, ev)
@@ -121,7 +130,7 @@ func (f *File) WriteAt(p []byte, off int64) (int, error) {
 	}
 	f.mu.Lock()
 	defer f.mu.Unlock()
-	ev := Event{Kind: Write, Off: off, Len: len(p), Data: append([]byte(nil), p...), Tag: f.Tag}
+	ev := Event{Kind: Write, Off: off, Len: len(p), Data: append([]byte(nil), p...), Tag: f.tag()}
 	if f.hit() {
 		ev.Failed = true
 		n := 0
@@ -169,7 +178,7 @@ func (f *File) Stat() (os.FileInfo, error) {
 	}
 	f.mu.Lock()
 	defer f.mu.Unlock()
-	ev := Event{Kind: Stat, Tag: f.Tag}
+	ev := Event{Kind: Stat, Tag: f.tag()}
 	if f.hit() {
 		ev.Failed = true
 		f.Log = append(f.Log, ev)
@@ -186,7 +195,7 @@ func (f *File) Truncate(size int64) error {
 	}
 	f.mu.Lock()
 	defer f.mu.Unlock()
-	ev := Event{Kind: Trunc, Off: size, Tag: f.Tag}
+	ev := Event{Kind: Trunc, Off: size, Tag: f.tag()}
 	if f.hit() {
 		ev.Failed = true
 		f.Log = append(f.Log, ev)
